@@ -195,7 +195,9 @@ def generate(ctx):
         base = [None, 1, 2][i % 3] if x * y > 1 or z > 1 else 4
         ctx.count('grid mesh=%dx%dx%d' % (z, x, y))
         extra = dict(ranks=[['2-D'], ['surface']][i % 2]) if (quick or i % 3) else {}
-        yield 'grid', dict(dict(mesh=[z, x, y], L=L, K=K, base=base, seed=int(rng.integers(0, 2 ** 31))), **gopts[i % len(gopts)], **extra)
+        # every Grid constructor option is also exercised ON a mesh (latitude spacing, longitude offset; radius is in gopts)
+        gridkw = dict(spacing=['equiangular', 'equiangular_with_poles', 'gauss'][i % 3], lon_offset=[None, 0.25, None, 1.0][i % 4])
+        yield 'grid', dict(dict(mesh=[z, x, y], L=L, K=K, base=base, seed=int(rng.integers(0, 2 ** 31))), **gopts[i % len(gopts)], **extra, **gridkw)
     # resolution / layout thresholds: wide and tall grids, longitude_nodes = 2 (wavenumbers - 1) and 2 (wavenumbers + 1),
     # total_wavenumbers > longitude_wavenumbers + 1, base multiples 4 and 8, non-unit radius
     dimsets = [[4, 5, 300, 6], [3, 9, 8, 150], [5, 6, 8, 5], [4, 9, 10, 7], [2, 3, 4, 3], [6, 6, 16, 9]]
@@ -204,7 +206,8 @@ def generate(ctx):
         dims = dimsets[(i + int(rng.integers(0, len(dimsets)))) % len(dimsets)] if quick else dimsets[i % len(dimsets)]
         yield 'grid', dict(mesh=list(m), L=dims[0], K=[3, 1, 2][i % 3], base=base, dims=dims, seed=int(rng.integers(0, 2 ** 31)),
                            radius=[None, 2.5][i % 2], stacked=[None, True][(i // 2) % 2], kind=['random', 'top'][i % 2],
-                           ranks=[] if quick else ['2-D', 'surface'])
+                           ranks=[] if quick else ['2-D', 'surface'], lon_offset=[0.5, None][i % 2],
+                           spacing=(['equiangular_with_poles', 'equiangular', 'gauss'][i % 3] if dims[3] <= 10 else None))
     for m in ([[(1, 3, 1), (1, 1, 3)][int(rng.integers(0, 2))]] if quick else [(1, 3, 1), (1, 1, 3), (2, 3, 1), (1, 5, 1), (1, 1, 7)]):
         yield 'grid_reject', dict(mesh=list(m), L=4, seed=int(rng.integers(0, 2 ** 31)))
     # the registered known finding (fixed, literal arguments: do not change without updating known_findings.json)
@@ -541,7 +544,8 @@ _coords = {}
 
 def coords_of(mesh, L, bounds, base, opts=None):
     """CoordinateSystem with FastSphericalHarmonics; mesh None = single device.
-    opts: stacked / rev (FastSphericalHarmonics options), radius, dims = [lw, tw, lon_nodes, lat_nodes]."""
+    opts: stacked / rev (FastSphericalHarmonics options), radius, dims = [lw, tw, lon_nodes, lat_nodes],
+    spacing (latitude_spacing), lon_offset (longitude_offset)."""
     import functools
     jax, jnp, jnu, sh, cs = J()
     from dinosaur import sigma_coordinates as sc
@@ -557,18 +561,21 @@ def coords_of(mesh, L, bounds, base, opts=None):
         if 'dims' in opts:
             lw, tw, lon, lat = opts['dims']
             grid = sh.Grid(longitude_wavenumbers=lw, total_wavenumbers=tw, longitude_nodes=lon, latitude_nodes=lat,
-                           radius=opts.get('radius'), spherical_harmonics_impl=impl)
+                           radius=opts.get('radius'), spherical_harmonics_impl=impl,
+                           latitude_spacing=opts.get('spacing', 'gauss'), longitude_offset=opts.get('lon_offset', 0.0))
         else:
-            grid = sh.Grid.with_wavenumbers(longitude_wavenumbers=L, spherical_harmonics_impl=impl, radius=opts.get('radius'))
+            grid = sh.Grid.with_wavenumbers(longitude_wavenumbers=L, spherical_harmonics_impl=impl, radius=opts.get('radius'),
+                                            latitude_spacing=opts.get('spacing', 'gauss'), longitude_offset=opts.get('lon_offset', 0.0))
         m = mesh_of(mesh, ['z', 'x', 'y']) if mesh else None
         _coords[key] = cs.CoordinateSystem(grid, sc.SigmaCoordinates(np.asarray(bounds, dtype=np.float64)), spmd_mesh=m)
     return _coords[key]
 
 
 def _grid_opts(a, unsharded=False):
-    """options of a case; the single-device reference keeps radius/dims but always uses the default (unstacked,
+    """options of a case; the single-device reference keeps every Grid constructor option
+    (radius, dims, latitude_spacing, longitude_offset) but always uses the default (unstacked,
     non-reversed) transforms, so every option is compared against the same plain computation."""
-    o = {'radius': a.get('radius'), 'dims': a.get('dims')}
+    o = {'radius': a.get('radius'), 'dims': a.get('dims'), 'spacing': a.get('spacing'), 'lon_offset': a.get('lon_offset')}
     if not unsharded:
         o.update(stacked=a.get('stacked'), rev=a.get('rev'), precision=a.get('precision'))
     return o
@@ -644,6 +651,62 @@ def _cmp_padded(ctx, what, big, small, scale, pad_zero=True):
     ctx.oracle('%s: padding stays zero' % what, bool((rest == 0).all()), float(np.abs(rest).max()) if rest.size else 0.0)
 
 
+def _ref_sin_lat(n, spacing):
+    """latitude nodes from their documentation, independently of dinosaur"""
+    if spacing == 'gauss':
+        return np.polynomial.legendre.leggauss(n)[0]
+    if spacing == 'equiangular':
+        return np.sin(-np.pi / 2 + (np.arange(n) + 0.5) * np.pi / n)
+    if spacing == 'equiangular_with_poles':
+        return np.sin(-np.pi / 2 + np.arange(n) * (np.pi / (n - 1) if n > 1 else 0.0))
+    raise ValueError(spacing)
+
+
+def _grid_attributes(ctx, a, g0, g1):
+    """every public attribute of the Grid on the mesh equals (on the unpadded part) the attribute of the
+    single-device Grid built with the same constructor options, and the documented definition."""
+    nx, ny = g0.nodal_shape; mx, my = g0.modal_shape
+    spacing = a.get('spacing') or 'gauss'; off = a.get('lon_offset') or 0.0; radius = a.get('radius') or 1.0
+
+    def same(what, v1, v0, sl):
+        v1 = np.asarray(v1, dtype=np.float64)[sl]; v0 = np.asarray(v0, dtype=np.float64)
+        if v1.shape != v0.shape:
+            return ctx.oracle('Grid attribute on a mesh = unsharded Grid attribute: %s' % what, False, [list(v1.shape), list(v0.shape)])
+        fin = np.isfinite(v0)
+        ctx.oracle('Grid attribute on a mesh has the same non-finite entries (poles) as unsharded: %s' % what, bool((np.isfinite(v1) == fin).all()))
+        ctx.oracle_close('Grid attribute on a mesh = unsharded Grid attribute: %s' % what, np.where(fin, v1, 0.0), np.where(fin, v0, 0.0),
+                         scale=max(1.0, float(np.abs(v0[fin]).max()) if fin.any() else 1.0))
+    lonsl = (slice(0, nx),); latsl = (slice(0, ny),)
+    same('longitudes', g1.longitudes, g0.longitudes, lonsl)
+    same('latitudes', g1.latitudes, g0.latitudes, latsl)
+    same('nodal_axes[0]', g1.nodal_axes[0], g0.nodal_axes[0], lonsl)
+    same('nodal_axes[1] (sin latitude)', g1.nodal_axes[1], g0.nodal_axes[1], latsl)
+    same('cos_lat', g1.cos_lat, g0.cos_lat, latsl)
+    with np.errstate(divide='ignore', invalid='ignore'):
+        same('sec2_lat', g1.sec2_lat, g0.sec2_lat, latsl)
+    same('quadrature weights', g1.spherical_harmonics.basis.w, g0.spherical_harmonics.basis.w, latsl)
+    same('nodal_mesh[1]', g1.nodal_mesh[1], g0.nodal_mesh[1], (slice(0, nx), slice(0, ny)))
+    same('laplacian_eigenvalues', g1.laplacian_eigenvalues, g0.laplacian_eigenvalues, (slice(0, my),))
+    same('modal_axes[0]', g1.modal_axes[0], g0.modal_axes[0], (slice(0, mx),))
+    same('modal_axes[1]', g1.modal_axes[1], g0.modal_axes[1], (slice(0, my),))
+    ctx.oracle('Grid scalar attributes on a mesh = unsharded (radius, offsets, spacing, limits)',
+               (g1.radius, g1.longitude_offset, g1.latitude_spacing, g1.longitude_wavenumbers, g1.total_wavenumbers, g1.longitude_nodes, g1.latitude_nodes)
+               == (g0.radius, g0.longitude_offset, g0.latitude_spacing, g0.longitude_wavenumbers, g0.total_wavenumbers, g0.longitude_nodes, g0.latitude_nodes)
+               and g1.radius == radius and g1.latitude_spacing == spacing and g1.longitude_offset == off)
+    sp1 = g1.spherical_harmonics
+    ctx.oracle('the spherical-harmonics object of the mesh Grid carries the Grid options',
+               (sp1.latitude_spacing, sp1.longitude_nodes, sp1.latitude_nodes, sp1.longitude_wavenumbers, sp1.total_wavenumbers)
+               == (spacing, g0.longitude_nodes, g0.latitude_nodes, g0.longitude_wavenumbers, g0.total_wavenumbers))
+    # documented definitions (independent of the implementation)
+    ctx.oracle_close('Grid on a mesh: sin(latitude) nodes = documented %s nodes' % spacing, np.asarray(g1.nodal_axes[1])[:ny],
+                     _ref_sin_lat(g0.latitude_nodes, spacing), scale=1.0)
+    ctx.oracle_close('Grid on a mesh: longitudes = offset + 2 pi i / n', np.asarray(g1.longitudes)[:nx],
+                     off + 2 * np.pi * np.arange(g0.longitude_nodes) / g0.longitude_nodes, scale=2 * np.pi + abs(off))
+    l = np.arange(g0.total_wavenumbers)
+    ctx.oracle_close('Grid on a mesh: laplacian eigenvalues = -l(l+1)/radius^2', np.asarray(g1.laplacian_eigenvalues)[:my],
+                     -l * (l + 1) / radius ** 2, scale=float(my * (my + 1)))
+
+
 def r_grid_reject(ctx, a):
     """odd x / y mesh sizes > 1 cannot be served by the two-way collectives: the transforms must raise, not return
     wrong values (odd z is fine: only the cumulative sums run over z)."""
@@ -670,6 +733,8 @@ def r_grid(ctx, a):
     mask0 = _ref_mask(lw, tw)                       # independent of the implementation's own mask
     ctx.oracle('mask (unpadded layout) = documented layout', bool(g0.modal_shape == mask0.shape and (g0.mask == mask0).all()))
     ctx.oracle('mask of the padded layout = padded mask', bool((g1.mask == _pad_to(mask0, g1.modal_shape)).all()))
+    _grid_attributes(ctx, a, g0, g1)
+    ctx.count('grid spacing=%s lon_offset=%s radius=%s' % (a.get('spacing') or 'gauss', a.get('lon_offset'), a.get('radius')))
     dig = _digest(g1.spherical_harmonics)
     x0 = _structured(a.get('kind', 'random'), a['seed'], (K,) + g0.modal_shape, mask0)
     x1 = _pad_to(x0, g1.modal_shape)
